@@ -71,8 +71,11 @@ OldComponent(l) ==      \* some component at the location is below the 2a level
 \* rather than the location's: the location is no longer `pure`, and what a later upgrade does there (convert, refuse or
 \* diverge) is left unspecified by this model - its effect on the content is still judged
 Impure(p) == IF p.out = "ok" THEN [out |-> "ok", lay |-> [p.lay EXCEPT !.pure = FALSE]] ELSE p
+\* the repository find_repository() sees from the location: its own, else the enclosing shared one (even if unused)
+SeenRepoFmt(l) == IF OwnRepo(l) THEN l.fmt ELSE IF l.above THEN l.sfmt ELSE "none"
 PlanUpgrade(l, f) ==
     IF f = "pack-0.92" /\ l.fmt # "pack-0.92" THEN No(l, "refused")
+    ELSE IF SeenRepoFmt(l) \in Formats /\ ~Compat(SeenRepoFmt(l), f) THEN No(l, "refused")    \* BadConversionTarget
     ELSE IF Rank(f) < Rank(l.fmt)
          THEN (IF OwnRepo(l) THEN No(l, "refused") ELSE IF l.tree THEN No(l, "diverges") ELSE Yes(l))
     ELSE IF f = "development-colo" /\ Rank(l.fmt) < 3
